@@ -573,6 +573,10 @@ def classify(job, res, known):
             hits.append((k, p))
         else:
             viol.append(p)
+    if viol and any('lowering/stub gap' in q for q in problems):
+        # a callee without body returns arbitrary values: failures of the same run are not evidence of a violation
+        problems.append('%s: %d failing obligation(s) not reported because the run has a lowering/stub gap' % (job.id, len(viol)))
+        viol = []
     for p in props:
         if 'must_fail' in p['desc'] and p['status'] != 'FAILURE':
             problems.append('%s: reachability check "%s" did not fail' % (job.id, p['desc']))
